@@ -85,6 +85,7 @@ type World struct {
 	Fails    []Failure
 	Names    []string
 	Cmds     []*Cmd
+	PreStatus string // status of w.Tor just before the last action
 	Dead     string // non-empty: execution cannot continue (crash / hang / loop exit)
 	Counters map[string]int64
 	Vars     map[string]any
@@ -295,8 +296,22 @@ func (w *World) Advance(d time.Duration) {
 }
 
 // Digest hashes the observable state (determinism assertion + distinct-state statistics).
+var debugDigest bool
+
 func (w *World) Digest() uint64 {
-	h := fnv.New64a()
+	h0 := fnv.New64a()
+	var dbg bytes.Buffer
+	var h interface {
+		Write([]byte) (int, error)
+	} = h0
+	if debugDigest {
+		h = &dbg
+	}
+	defer func() {
+		if debugDigest {
+			fmt.Printf("DIGEST step %d: %s\n", w.Step, dbg.String())
+		}
+	}()
 	for ti, tor := range w.Tors {
 		st := tor.VerifState()
 		sort.Strings(st.ConnectedIPs)
@@ -317,7 +332,10 @@ func (w *World) Digest() uint64 {
 		fmt.Fprintf(h, "|C%s:%v", c.Name, c.IsDone(w))
 	}
 	fmt.Fprintf(h, "|D%d|R%d", len(vnet.W.DialLog()), vrand.Draws)
-	return h.Sum64()
+	if debugDigest {
+		h0.Write(dbg.Bytes())
+	}
+	return h0.Sum64()
 }
 
 // ---------------------------------------------------------------------------------------------
@@ -502,12 +520,16 @@ func Exec(t *testing.T, sc *Scenario, arg json.RawMessage, prefix []int, expect 
 				if c == 0 {
 					c = 1
 				}
+				// Cost < 0: free alternative (alphabet member of an enumerated operation sequence)
 				pt.Cost = append(pt.Cost, c)
 			}
 			pt.Cost[0] = 0
 			res.Trace.Points = append(res.Trace.Points, pt)
 			res.Trace.Choices = append(res.Trace.Choices, choice)
 			w.Labels = append(w.Labels, acts[choice].Label)
+			if w.Tor != nil {
+				w.PreStatus = w.Tor.VerifState().Status
+			}
 			acts[choice].Do(w)
 			w.Quiesce()
 			w.Step++
@@ -582,6 +604,10 @@ func (w *World) teardown() {
 		synctest.Wait()
 		select {
 		case <-done:
+			// Time stops when the bubble's root returns: let every pending timer (context deadlines of
+			// stop announcers, idle-connection timers) fire first so that their goroutines can exit.
+			synctest.Wait()
+			time.Sleep(3 * time.Hour)
 			synctest.Wait()
 			return
 		default:
